@@ -245,7 +245,21 @@ fn sym_line(s: &Sym, ctr: u64, last: &Option<(u8, u8, Option<u8>)>) -> Line {
             b.cks = Some(nmea_ref::xor(&b.body()) ^ 0x55);
             (b.line(), false)
         }
-        Sym::Malformed => (b"!AIVDM,2,x,1,A,PPPP;,0*00".to_vec(), false),
+        Sym::Malformed => match (last, ctr % 3) {
+            // malformed behind a readable header: an opener with the id of the last header seen,
+            // or its next fragment
+            (Some((n, _, id)), 1) => {
+                let mut b = Build::simple((*n).max(2), 1, *id, b"A", b"", 0);
+                b.payload.clear();
+                (b.line(), false)
+            }
+            (Some((n, k, id)), 2) if *k < *n => {
+                let mut b = Build::simple(*n, *k + 1, *id, b"A", &uniq_payload(ctr), 0);
+                b.fill = "6".into();
+                (b.line(), false)
+            }
+            _ => (b"!AIVDM,2,x,1,A,PPPP;,0*00".to_vec(), false),
+        },
     }
 }
 
@@ -326,8 +340,17 @@ fn inert_line(r: &mut Rng, open: &Option<(u8, u8, Option<u8>)>, ctr: u64) -> Lin
             (nmea_ref::mk(n, k, id, &uniq_payload(ctr), 0), false)
         }
         6 => {
-            let n = r.usize(0, 40);
-            (r.bytes(n), r.bool())
+            if r.bool() {
+                let n = r.usize(0, 40);
+                (r.bytes(n), r.bool())
+            } else {
+                let (n, k, id) = match (open, r.below(3)) {
+                    (Some((n, _, id)), 0) => ((*n).max(2), 1, *id),
+                    (Some((n, k, id)), 1) => (*n, k.saturating_add(1), *id),
+                    _ => (2, 1, Some(r.below(10) as u8)),
+                };
+                (malformed_with_header(r, n, k, id), r.bool())
+            }
         }
         _ => (nmea_ref::mk(1, 1, Some(3), &uniq_payload(ctr), 0), false),
     }
